@@ -99,7 +99,11 @@ func (w *World) startCall(ci int) {
 	cs.StartAt = w.now()
 	ctx, cancel := context.WithCancel(context.WithValue(context.Background(), callerKey{}, "c"+strconv.Itoa(ci)))
 	cs.cancel = cancel
-	if cs.C.CancelAtUs > 0 {
+	if cs.C.PreCancelled {
+		cancel()
+		cs.CancelledAt = max(cs.StartAt, 1)
+		w.stat("fault.cancel.before-the-call")
+	} else if cs.C.CancelAtUs > 0 {
 		w.schedule(event{at: time.Duration(cs.C.CancelAtUs) * time.Microsecond, kind: "cancel", call: ci})
 	}
 	w.Log.add(cs.StartAt, "c"+strconv.Itoa(ci), "start", cs.C.Entry)
